@@ -127,6 +127,13 @@ Refs(s, n) ==
        [] OTHER -> [k \in 1..n |-> n + 1 - k]                    \* everything refers to everything, reversed
   ]
 
+\* print -> insert an unnumbered definition -> print again: the list and the operand
+\* structure after inserting a new (operand-free) definition after position p (0 = in front)
+InsAt(s, p, v) == SubSeq(s, 1, p) \o <<v>> \o SubSeq(s, p + 1, Len(s))
+InsRefs(refs, p) ==
+  InsAt([i \in 1..Len(refs) |-> [k \in 1..Len(refs[i]) |-> IF refs[i][k] > p THEN refs[i][k] + 1 ELSE refs[i][k]]],
+        p, <<>>)
+
 \* tokens of the printed module: per definition <<own id, id of each target>>
 Tokens(r, refs) == [i \in 1..Len(r) |-> <<r[i]>> \o [k \in 1..Len(refs[i]) |-> r[refs[i][k]]]]
 
